@@ -342,7 +342,23 @@ func (e *integEngine) runCLI(res *RunResult) *integEngine {
 	}
 	e.cli = true
 	CLIHooks.ResetCancel()
-	c.atAbort = append(c.atAbort, CLIHooks.Abort)
+	var abortOnce sync.Once
+	abort := func() { abortOnce.Do(CLIHooks.Abort) } // abort() closes a channel: exactly once per process run
+	c.atAbort = append(c.atAbort, abort)
+	for i := 0; i < e.w.NFaults; i++ {
+		i := i
+		go func() {
+			_, a := c.Yield("fault-cancel", fmt.Sprint(i), nil)
+			if a.Kind == "abort" {
+				return
+			}
+			// what the signal handler does (minus os.Exit): close the package-level cancel channel,
+			// which wakes the goroutines that cancel the task runner and the scheduler
+			c.Note("cancel-call", fmt.Sprint(i), "abort()")
+			abort()
+			c.Note("cancel-return", fmt.Sprint(i), "")
+		}()
+	}
 	scheduler.VerifPause = simPause
 	defer func() { scheduler.VerifPause = 0 }()
 	c.onEvent = e.onEvent
